@@ -20,12 +20,21 @@ type TargetResult struct {
 	Unsupported string // non-empty: the function is outside the engine's subset
 	Inputs      []InputVar
 	Size        int
+	slicer      *Slicer
+}
+
+// ScriptFor returns the preamble restricted to what the obligation condition can depend on.
+func (tr *TargetResult) ScriptFor(cond string) string {
+	if tr.slicer == nil {
+		return tr.Script
+	}
+	return tr.slicer.Script(cond)
 }
 
 func newExec(w *World, target string) *Exec {
 	x := &Exec{g: NewGen(), w: w, compCache: map[types.Type][]comp{}, tags: map[string]uint32{}, tagTypes: map[uint32]types.Type{},
-		oblCount: map[string]int{}, notes: map[string]bool{}, target: target, globalsInit: map[string]string{}, budget: 400000,
-		strIDs: map[string]string{}, sentinels: map[string]uint32{}, cells: map[string]*cellMeta{}}
+		oblCount: map[string]int{}, notes: map[string]bool{}, target: target, globalsInit: map[string]string{}, budget: 6000000,
+		strIDs: map[string]string{}, sentinels: map[string]uint32{}, cells: map[string]*cellMeta{}, nonNil: map[string]bool{}}
 	return x
 }
 
@@ -187,6 +196,7 @@ func (w *World) Verify(c *Contract) (res *TargetResult) {
 		x.inputs = append(x.inputs, InputVar{p.Name(), v})
 		if i == 0 && fn.Signature.Recv() != nil && isPtr(p.Type()) {
 			x.g.Assume(not(eq(v.C[0], NilRef)))
+			x.nonNil[not(eq(v.C[0], NilRef))] = true
 			x.note("method receivers are assumed non-nil")
 		}
 	}
@@ -196,6 +206,8 @@ func (w *World) Verify(c *Contract) (res *TargetResult) {
 		x.g.Assume(t)
 	}
 	f := x.newFrame(fn, c, args, false)
+	f.keepCtx = c.SplitReturns
+	x.pathMode = c.SplitReturns
 	x.stack = append(x.stack, fn)
 	f.run("true", heap)
 	x.finalizeEpochs()
@@ -228,6 +240,24 @@ func (w *World) Verify(c *Contract) (res *TargetResult) {
 		results = []Val{rv}
 	}
 	for _, e := range c.Ensures {
+		if c.SplitReturns && e.CaseVar == "" && len(f.rets) > 1 {
+			// proof hint `split returns`: the postcondition is proved once per return statement
+			// (unfolded), each with that return's own values and heap. The return conditions
+			// partition the merged one, so the conjunction of the cases is the unsplit obligation.
+			for i, r := range f.rets {
+				var res []Val
+				if len(r.val.Sub) > 0 {
+					res = r.val.Sub
+				} else if fn.Signature.Results().Len() == 1 {
+					res = []Val{r.val}
+				}
+				t := x.evalClause(f, e, r.heap, entry, args, res, nil)
+				x.oblige("post", fmt.Sprintf("ensures%d.ret%d", e.N, i), e.Props, and(r.reach, not(t)), fn, token.NoPos)
+				o := x.obls[len(x.obls)-1]
+				o.Detail, o.Clause, o.Group = e.Text, e, fmt.Sprintf("ensures%d", e.N)
+			}
+			continue
+		}
 		var sk *skolem
 		if e.CaseVar != "" {
 			sk = &skolem{}
@@ -238,6 +268,7 @@ func (w *World) Verify(c *Contract) (res *TargetResult) {
 		if sk == nil {
 			x.oblige("post", fmt.Sprintf("ensures%d", e.N), e.Props, and(retReach, not(t)), fn, token.NoPos)
 			x.obls[len(x.obls)-1].Detail, x.obls[len(x.obls)-1].Clause = e.Text, e
+			x.obls[len(x.obls)-1].Group = fmt.Sprintf("ensures%d", e.N)
 			continue
 		}
 		// `forall k :: body` as a postcondition is proved for an arbitrary constant k, by the
@@ -254,9 +285,11 @@ func (w *World) Verify(c *Contract) (res *TargetResult) {
 			outside = append(outside, not(is))
 			x.oblige("post", fmt.Sprintf("ensures%d.%s=%d", e.N, e.CaseVar, k), e.Props, and(retReach, is, not(t)), fn, token.NoPos)
 			x.obls[len(x.obls)-1].Detail, x.obls[len(x.obls)-1].Clause = e.Text, e
+			x.obls[len(x.obls)-1].Group = fmt.Sprintf("ensures%d", e.N)
 		}
 		x.oblige("post", fmt.Sprintf("ensures%d.%s=other", e.N, e.CaseVar), e.Props, and(append([]string{retReach}, append(outside, not(t))...)...), fn, token.NoPos)
 		x.obls[len(x.obls)-1].Detail, x.obls[len(x.obls)-1].Clause = e.Text, e
+		x.obls[len(x.obls)-1].Group = fmt.Sprintf("ensures%d", e.N)
 	}
 	x.frameObligations(f, c, entry, final, args, retReach, allProps)
 	// vacuity: the preconditions admit an execution that returns
@@ -296,6 +329,7 @@ func contractProps(c *Contract) []string {
 
 func (x *Exec) finish(res *TargetResult) {
 	res.Script = x.g.Script()
+	res.slicer = x.g.NewSlicer()
 	res.Obls = x.obls
 	res.Inputs = x.inputs
 	res.Size = x.g.Size
